@@ -89,6 +89,14 @@ def make(n, kinds, orders="rev"):
         sched = graphs.SymSched(g, all_ok=True, on_spawn=on_spawn)
         proj = hrun.Project()
         proj.write_tasks(specs)
+        # a package's COND file may be a symbolic link to a file kept elsewhere in the project
+        if (decor == 0 and not same) and g.flag("cond_file_is_a_symbolic_link"):
+            (proj.root / "shared definitions").mkdir()
+            for n_, pkg_ in enumerate(sorted(set(s_.pkg for s_ in specs))):
+                src_ = proj.root / pkg_ / "COND"
+                dst_ = proj.root / "shared definitions" / ("COND-%d" % n_)
+                os.rename(str(src_), str(dst_))
+                os.symlink(str(dst_), str(src_))
         vdir = {}
         for j in has_version:
             vdir[j] = str(proj.add_version(specs[j].ident, 100 + j))
@@ -117,7 +125,8 @@ def make(n, kinds, orders="rev"):
                 rel = os.path.relpath(p_.cwd, str(proj.root))
                 rel = "" if rel == "." else rel
                 j_ = [i for i, s_ in enumerate(specs) if s_.name == p_.name and s_.pkg == rel]
-                sp.setdefault(j_[0] if j_ else p_.name, []).append(p_)
+                g.require(bool(j_), "env:cond-name", "a task process ran in //%s with COND_NAME=%r: no such task; %s" % (rel, p_.name, D))
+                sp.setdefault(j_[0], []).append(p_)
             out_root = str(proj.out)
             nontrivial = False
 
